@@ -278,7 +278,7 @@ def element_extent(toks, start):
         i += 1
     return n
 
-def resolve_cfg_and_attrs(toks, log, where=""):
+def resolve_cfg_and_attrs(toks, log, where="", keep_debug=False):
     """Apply T1 and T2 to a token list; returns a new token list.  Deleted
     tokens are replaced by the newlines they contained so that line structure
     relative to the start is preserved."""
@@ -320,7 +320,7 @@ def resolve_cfg_and_attrs(toks, log, where=""):
         elif name in DROP_ATTRS:
             log.append("T2 %s line %d: #[%s..] removed" % (where, t.line, name))
             blank(toks[i:end]); i = end
-        elif name == "derive" and any(x.k == "id" and x.s == "Debug" for x in inner):
+        elif name == "derive" and not keep_debug and any(x.k == "id" and x.s == "Debug" for x in inner):
             # T2: `Debug` is dropped from derive lists (formatting only); the other derives stay
             names = [x.s for x in inner[2:-1] if x.k == "id"]
             keep = [x for x in names if x != "Debug"]
